@@ -1,8 +1,10 @@
 #!/bin/bash
-# runs every check's quick (or thorough) command sequentially; prints one verdict line per check
-TIER="${1:-quick}"
-for i in $(seq -w 1 20); do
-  id="C$i"
+# usage: runall.sh [quick|thorough] [ID...]  — runs the checks' commands sequentially (all 20 by default);
+# prints one verdict line per check
+TIER="${1:-quick}"; shift
+IDS=("$@"); [ ${#IDS[@]} -eq 0 ] && IDS=($(seq -f 'C%02g' 1 20))
+cd "$(dirname "${BASH_SOURCE[0]}")/.."
+for id in "${IDS[@]}"; do
   s=$(date +%s)
   out=$(bin/check.sh $id $TIER 2>&1); code=$?
   e=$(( $(date +%s) - s ))
